@@ -759,11 +759,11 @@ def run(ctx: Ctx):
         if ctx.quick and rng.random() < 0.5:
             continue
         cases.append(gen_lqr_case(rng, small=sh))
-    for _ in range(ctx.pick(110, 2000)):
+    for _ in range(ctx.pick(160, 2000)):
         cases.append(gen_lqr_case(rng, big=True))
-    for _ in range(ctx.pick(22, 300)):
+    for _ in range(ctx.pick(30, 300)):
         cases.append(gen_mpc_linear_case(rng, big=not ctx.quick))
-    for _ in range(ctx.pick(28, 400)):
+    for _ in range(ctx.pick(36, 400)):
         cases.append(gen_mpc_nls_case(rng, big=not ctx.quick))
     run_cases(ctx, cases)
     run_stepper(ctx, ctx.pick(100, 1000))
